@@ -137,10 +137,9 @@ def get_operation_count(layer, input_shape):
     add_ops = np.prod(pool_size)
 
     output_shape = layer.compute_output_shape(input_shape)
-    channels_o = output_shape[-1]
 
-    # total number of add ops
-    operation_count = channels_o * add_ops
+    # total number of add ops: one window sum per output element
+    operation_count = int(np.prod(output_shape[1:])) * add_ops
 
   elif "UpSampling" in layer.__class__.__name__:
     # UpSampling1D/2D/3D
